@@ -171,4 +171,32 @@ def Obs.run (o : Obs) : List PEvent → Option Obs
   | [] => some o
   | e :: es => (o.step e).bind (fun o' => o'.run es)
 
+/-! ### The statements behind the actions
+
+The statements of the back-pressure protocol as they stand in the source
+(`creator/content_pack/clusterwriter.rs`); tools/extract_funcs.py extracts, on every run, the statement
+sequence of `ClusterWriterProxy::write_cluster` (both branches) and of the loop body of
+`ClusterCompressor::run` (Generated/FuncsPipe.lean). -/
+
+inductive PStmt where
+  | waitBelowMax     -- `cvar.wait_while(count.lock(), |c| *c >= max_queue_size)`
+  | incr             -- `*count += 1`
+  | sendDispatch     -- `dispatch_tx.send(cluster)`
+  | sendFusion       -- `fusion_tx.send(..)` / `output.send(WriteTask::Compressed(..))`
+  | recvDispatch     -- `input.recv()`
+  | compress         -- `compress_cluster(..)` into a private buffer
+  | lock             -- `count.lock()`
+  | decr             -- `*count -= 1`
+  | notify           -- `cvar.notify_one()`
+  deriving Repr, DecidableEq
+
+/-- `.mainSend` on a compressed cluster: wait until the counter is below the limit, count the cluster,
+    hand it to the workers — one atomic action of the model (the guard is held until the send) -/
+def mainSendCompressedStmts : List PStmt := [.waitBelowMax, .incr, .sendDispatch]
+/-- `.mainSend` on a raw cluster: straight to the writer, the counter is not involved -/
+def mainSendRawStmts : List PStmt := [.sendFusion]
+/-- a worker's turn: `.take w` (receive), `.finish w` (compress, send to the writer), `.release w` (lock,
+    decrement, notify) -/
+def workerTurnStmts : List PStmt := [.recvDispatch, .compress, .sendFusion, .lock, .decr, .notify]
+
 end Jubako
